@@ -298,6 +298,9 @@ def run(rep: core.Report):
     _run_main(rep)
     shared_trunc.run(rep, "R04f")
     _r04g(rep)
+    from rules import shared_bcast
+
+    shared_bcast.run(rep, "R04h", sorted(core.python_files("phonopy/structure")))
 
 
 def selftest():
